@@ -113,6 +113,8 @@ def generate(rnd, tier):
             args["x_axis"] = rnd.choice(X_AXES)
         arg_types = {k_: rnd.choice(["ndarray", "ndarray", "list", "tuple"]) for k_ in ("fnr", "fpr", "thresholds") if k_ in args}
         args["alpha"] = rnd.choice([0.05, 0.01, 0.5, round(rnd.uniform(0.01, 0.5), 3), round(rnd.uniform(0.5, 0.95), 2), 0.001])
+        if rnd.random() < 0.25:
+            args["alpha_type"] = rnd.choice(["float32", "float32", "float16"])
         r = rnd.random()
         if r < 0.2:
             sampler = {"callable": "identity"}
@@ -155,6 +157,12 @@ def generate(rnd, tier):
                     fl.append(f)
             op["faults"] = fl
         ops.append(op)
+    if rnd.random() < 0.006:
+        # a very fine user grid (more than a thousand support points) on a small data set, identity sampler
+        lo_, n_ = round(rnd.uniform(-8, -4), 2), rnd.randint(1050, 1600)
+        ops.append({"op": "band", "fn": rnd.choice(["roc_with_ci", "roc_with_ci", "simultaneous_joint_region_ci"]),
+                    "args": {"alpha": 0.1, "thresholds": [round(lo_ + 0.01 * k_, 2) for k_ in range(n_)]}, "sampler": {"callable": "identity"},
+                    "cfg": {"nb_samples": 2, "bootstrap_method": "quantile"}, "arg_types": {"thresholds": "ndarray"}})
     if not any(o["op"] == "band" for o in ops):
         ops.append({"op": "band", "fn": "roc_with_ci", "args": {"alpha": 0.05}, "sampler": {"callable": "identity"},
                     "cfg": {"nb_samples": 3, "bootstrap_method": "bca"}})
@@ -397,6 +405,15 @@ def execute(scn, ctx):
             kw["x_axis"] = args["x_axis"]
         alpha = float(args.get("alpha", 0.05))
         kw["alpha"] = alpha
+        if args.get("alpha_type") in ("float32", "float16") and s_kind == "identity" and fn_name == "roc_with_ci":
+            # the significance level as a narrow NumPy scalar (read from a float32 config array).  Only with the identity
+            # sampler: there every bootstrap interval is degenerate whatever the level, so the closed form depends on
+            # alpha through the rule of three alone, and that is a function of alpha's exact value
+            a_ = getattr(np, args["alpha_type"])(alpha)
+            if 0.0 < float(a_) < 1.0:
+                alpha = float(a_)
+                kw["alpha"] = a_
+                probe("narrow_alpha")
         arr_fp = M.fingerprint(arrs)
         fp_before = M.fingerprint(src)
         func = L.roc_with_ci if fn_name == "roc_with_ci" else getattr(L.experimental, fn_name)
